@@ -299,3 +299,111 @@ class Ctx:
         if len(cands) != 1:
             raise RoleError('finalizer: expected one fn(NamedTempFile, ..)->Result<TempPath>, found %s' % cands)
         return cands[0]
+
+
+# --------------------------------------------------------------------------- tags
+
+class Tags:
+    """Provenance classification of path terms (DESIGN §3.2 L3), from discovered roles."""
+
+    def __init__(self, ctx):
+        self.ctx = ctx
+        tr_path = ctx.role('cachedir_trait')
+        tr = ctx.traits[tr_path]
+        required = [m['name'] for m in tr['methods'] if not m.get('key')]
+        # event path of every implementation of every required method
+        self.impl_paths = {}   # 'local::<path>' -> method name
+        for imp in tr['impls']:
+            for name in required:
+                k = imp['methods'].get(name)
+                if k:
+                    self.impl_paths['local::' + ctx.B[k]['path']] = name
+        m = ctx.cachedir_methods()
+        self.validator = ctx.role('validator')
+        self.validator_path = 'local::' + ctx.B[self.validator]['path']
+        self.roles = {}
+        # directory accessor: mentioned by the lookup's open path
+        q = ctx.explore(m['get'])
+        self.roles['dir'] = self._accessor_in(q, q.prim_edges('open_ro'), 0, 'directory accessor')
+        q = ctx.explore(m['ensure_temp'])
+        self.roles['temp'] = self._accessor_in(q, q.prim_edges('ns_create_dir'), 0, 'temp accessor')
+        # capacity accessor: feeds the planner; trigger accessor: receiver of the gating pure call
+        q = ctx.explore(m['set'])
+        planner = 'local::' + ctx.B[ctx.key_of('second_chance::Update::<T>::new')]['path']
+        pe = q.edges(lambda ev: ev['k'] == 'pure_local' and ev['path'] == planner)
+        self.planner_path = planner
+        self.roles['capacity'] = self._accessor_in(q, pe, 1, 'capacity accessor')
+        cand = set()
+        for (a, b, ev) in q.E:
+            if ev is not None and ev['k'] == 'pure_local' and ev.get('dest_ty') == 'bool':
+                for arg in ev['args']:
+                    for s in values.subs(arg):
+                        t = VAL[s]
+                        if t[0] == 'sym' and t[1] == 'app' and t[2] in self.impl_paths:
+                            cand.add((self.impl_paths[t[2]], ev['path']))
+        cand = {c for c in cand if c[0] not in self.roles.values()}
+        if len({c[0] for c in cand}) != 1:
+            raise RoleError('trigger accessor: expected one, found %s' % sorted(cand))
+        self.roles['trigger'] = next(iter(cand))[0]
+        self.trigger_consult_paths = {c[1] for c in cand}
+        self.by_role = {}
+        for p, name in self.impl_paths.items():
+            for role, n in self.roles.items():
+                if n == name:
+                    self.by_role.setdefault(role, set()).add(p)
+
+    def _accessor_in(self, q, edges, argi, what):
+        names = set()
+        for e in edges:
+            ev = q.E[e][2]
+            if argi >= len(ev['args']) or ev['args'][argi] is None:
+                continue
+            for s in values.subs(ev['args'][argi]):
+                t = VAL[s]
+                if t[0] == 'sym' and t[1] == 'app' and t[2] in self.impl_paths:
+                    names.add(self.impl_paths[t[2]])
+        if len(names) != 1:
+            raise RoleError('%s: expected exactly one required method, found %s' % (what, sorted(names)))
+        return names.pop()
+
+    # ------------------------------------------------------------------
+
+    def tags(self, v):
+        """Set of provenance tags of a term."""
+        out = set()
+        if v is None:
+            return out
+        for s in values.subs(v):
+            t = VAL[s]
+            if t[0] == 'sym':
+                k = t[1]
+                if k == 'app':
+                    p = t[2]
+                    if p in self.by_role.get('dir', ()):
+                        out.add('BaseDir')
+                    elif p in self.by_role.get('temp', ()):
+                        out.add('TempDir')
+                    elif p == 'std::fs::DirEntry::file_name':
+                        out.add('ListedName')
+                    elif p in ('filetime::FileTime::now', 'std::time::SystemTime::now'):
+                        out.add('Now')
+                    elif p.startswith('tempfile::'):
+                        out.add('TempFile')
+                elif k == 'vf' and t[3] == 'v0':
+                    b = VAL[t[2]]
+                    if b[0] == 'sym' and b[1] == 'app' and b[2] == self.validator_path:
+                        out.add('KeyNameValidated')
+                elif k == 'param':
+                    out.add('Param%s' % t[2])
+            elif t[0] == 'str':
+                out.add('Const:' + t[1])
+        return out
+
+    def split_path(self, v):
+        """(dir term, leaf term) when v is path.push(dir, leaf); else (v, None)."""
+        if v is None:
+            return None, None
+        t = VAL[v]
+        if t[0] == 'sym' and t[1] == 'app' and t[2] == 'path.push':
+            return t[4], t[5] if len(t) > 5 else None
+        return v, None
